@@ -23,6 +23,7 @@ type Env struct {
 	site    *ssa.BasicBlock // program point of the clause (name resolution)
 	prevEnv *Env  // environment of the loop header (inside 'update' clauses: prev(e))
 	pre     State // heap at loop entry (inside loop clauses)
+	oldMode bool  // evaluating inside old(...): a parameter denotes its value on function entry
 	preMode bool  // evaluating inside pre(...): loop variables denote their values on loop entry
 	loopOrd int   // ordinal of the loop whose header names are in scope (0: none)
 }
@@ -161,6 +162,7 @@ func (env *Env) eval(x Expr) Val {
 		if env.old != nil {
 			c.st = env.old
 		}
+		c.oldMode = true
 		return c.eval(n.X)
 	case *ECall:
 		if n.Fun == "prev" && len(n.Args) == 1 {
